@@ -536,7 +536,9 @@ pub fn run<P: Property>(p: &P, opts: &Opts) -> i32 {
         "wall_s": wall,
         "violations": failures.len().min(1),
     });
-    let evdir = verif_dir().join("evidence");
+    // VERIF_EVIDENCE_DIR: used by tools/try_mutant.sh so that runs against a deliberately broken tree
+    // do not overwrite the evidence of the real tree
+    let evdir = std::env::var("VERIF_EVIDENCE_DIR").map(PathBuf::from).unwrap_or_else(|_| verif_dir().join("evidence"));
     let _ = std::fs::create_dir_all(&evdir);
     let evpath = evdir.join(format!("{}.json", id));
     std::fs::write(&evpath, serde_json::to_string_pretty(&evidence).unwrap())
